@@ -58,6 +58,8 @@ type St struct {
 	mtTx [][5]string          // (op, bucket, key, ttl, ts) of the key/value writes of the running transaction
 	mt   map[string][2]string // bucket \x00 key -> (ttl, ts)
 	mtUnknown bool            // the put just executed took its timestamp from the library's clock
+	mergeCh   chan error      // a Merge running in another goroutine (mergeasync)
+	lastRC    string          // the call text as executed (e.g. putfill -> put with the value it chose)
 }
 
 type Event struct {
@@ -333,7 +335,7 @@ func (s *St) exec(call string) (rcall string, res string) {
 		s.db = db
 		s.datEnd = -1
 		// end of the data in the active (highest-numbered) segment: after its last non-zero byte
-		if fs, _ := filepath.Glob(s.dir + "/*.dat"); len(fs) > 0 {
+		if fs, _ := globIn(s.dir, "*.dat"); len(fs) > 0 {
 			best, bestID := "", -1
 			for _, f := range fs {
 				if id, err := strconv.Atoi(strings.TrimSuffix(filepath.Base(f), ".dat")); err == nil && id > bestID {
@@ -359,6 +361,23 @@ func (s *St) exec(call string) (rcall string, res string) {
 			return call, "err"
 		}
 		return call, errOr(s.db.Merge(), "ok")
+	case "mergeasync": // Merge is CALLED now, from another goroutine; the transaction that holds the lock goes on; "mergewait" collects it
+		if s.db == nil || s.mergeCh != nil {
+			return "#I mergeasync skipped", "-"
+		}
+		ch := make(chan error, 1)
+		s.mergeCh = ch
+		db := s.db
+		go func() { ch <- db.Merge() }()
+		time.Sleep(25 * time.Millisecond) // Merge is now waiting for the lock (or has not started yet: then nothing special is tested)
+		return "#I mergeasync", "-"
+	case "mergewait": // the result of the Merge started by mergeasync; in the trace it is a Merge at this point (serial order)
+		if s.mergeCh == nil {
+			return "#I mergewait without mergeasync", "-"
+		}
+		err := <-s.mergeCh
+		s.mergeCh = nil
+		return "merge", errOr(err, "ok")
 	case "mergefault": // mergefault <event index> <partial bytes|-1>: Merge with an injected I/O error
 		if s.db == nil {
 			return "merge", "err"
@@ -749,11 +768,16 @@ func (s *St) run(call string) string {
 	watchStart(call)
 	rc, res := s.exec(call)
 	watchStop()
+	s.lastRC = rc
 	if s.bmCheck {
 		s.bucketMetaOracle(rc, res)
 	}
 	s.entryMetaTrack(rc, res)
 	if s.quiet {
+		return res
+	}
+	if strings.HasPrefix(rc, "#") {
+		emit("%s", rc)
 		return res
 	}
 	if s.comment {
@@ -926,4 +950,9 @@ func (s *St) entryMetaTrack(rc, res string) {
 		}
 		s.mtTx = nil
 	}
+}
+
+// globIn: filepath.Glob for pat inside dir, the directory name taken literally.
+func globIn(dir, pat string) ([]string, error) {
+	return filepath.Glob(strings.NewReplacer("\\", "\\\\", "[", "\\[", "*", "\\*", "?", "\\?").Replace(dir) + "/" + pat)
 }
